@@ -110,6 +110,26 @@ theorem flagset_reports_a_set_secret (s : List Bytes) (flags : List Flag) (n : B
   · cases h0
   · exact h1
 
+/-- **flagset_verdict_order_independent.** The verdict does not depend on the order in which pflag visits the flags (only
+    the NAME reported in the error does): the sorted-order contract of `VisitAll` is not needed for the refusal -/
+theorem flagset_verdict_order_independent (s : List Bytes) (a b : List Flag) (h : a.Perm b) :
+    (loadFromFlagSet s a).isSome = (loadFromFlagSet s b).isSome := by
+  apply Bool.eq_iff_iff.mpr
+  rw [flagset_refused_iff, flagset_refused_iff]
+  constructor
+  · rintro ⟨f, hf, hr⟩; exact ⟨f, h.mem_iff.mp hf, hr⟩
+  · rintro ⟨f, hf, hr⟩; exact ⟨f, h.mem_iff.mpr hf, hr⟩
+
+/-- adding flags to a command (its own options, persistent flags of a parent) never un-refuses a secret -/
+theorem flagset_refusal_monotone (s : List Bytes) (a extra : List Flag) (h : (loadFromFlagSet s a).isSome = true) :
+    (loadFromFlagSet s (a ++ extra)).isSome = true ∧ (loadFromFlagSet s (extra ++ a)).isSome = true := by
+  obtain ⟨f, hf, hr⟩ := (flagset_refused_iff s a).mp h
+  exact ⟨(flagset_refused_iff s _).mpr ⟨f, List.mem_append_left _ hf, hr⟩, (flagset_refused_iff s _).mpr ⟨f, List.mem_append_right _ hf, hr⟩⟩
+
+example : (loadFromFlagSet suffixes [{ name := sToken, changed := true }, { name := [97], changed := true }]).isSome = true ∧
+    loadFromFlagSet suffixes [{ name := [97], changed := true }, { name := sToken, changed := false }] = none := by
+  refine ⟨?_, ?_⟩ <;> decide
+
 /-- the abstract `load` (names of the flags given on the command line) is this loader on the flags marked changed -/
 theorem load_refines_flagset (c : Config) :
     (load c = some ("load", "cli-secret")) ↔
